@@ -118,6 +118,44 @@ theorem platform_table :
     (∀ a ∈ allArchs, ∀ b ∈ allArchs, toAPK a = toAPK b → a = b) ∧
     (∀ a ∈ allArchs, ∀ b ∈ allArchs, toOCIPlatform a = toOCIPlatform b → a = b) := by decide
 
+/-- AllArchs is the list of supported architectures the specification names -/
+theorem tie_allArchs : allArchs = Spec.knownArchs := by decide
+
+theorem parse_table_facts :
+    (∀ p ∈ parseArchTable, Spec.canonArch p.1 = p.2) ∧ (∀ k ∈ keysOf Spec.aliases, k ∈ keysOf parseArchTable) := by decide
+
+/-- ParseArchitecture is the specification's alias resolution, for every string -/
+theorem parseArch_spec (s : Text) : parseArch s = Spec.canonArch s := by
+  by_cases h : s ∈ keysOf parseArchTable
+  · obtain ⟨v, hv⟩ := lookupT_isSome h
+    have := parse_table_facts.1 _ (lookupT_mem hv)
+    simp only [parseArch, hv, Option.getD_some]; exact this.symm
+  · have h' : s ∉ keysOf Spec.aliases := fun hk => h (parse_table_facts.2 s hk)
+    simp [parseArch, Spec.canonArch, lookupT_none h, lookupT_none h']
+
+theorem oci_table_facts :
+    (∀ p ∈ toOCITable, p.1 ∈ Spec.knownArchs ∧ splitSlash p.1 = some (p.2.arch, p.2.variant)) ∧
+    (∀ a ∈ Spec.knownArchs, a ∈ keysOf toOCITable ∨ splitSlash a = none) := by decide
+
+/-- T platform_spec: ToOCIPlatform yields, for every string, the platform the specification
+expects (`architecture/variant` of a supported architecture split at the slash) -/
+theorem platform_spec (s : Text) : toOCIPlatform s = Spec.platformOf s := by
+  unfold toOCIPlatform Spec.platformOf
+  rw [parseArch_spec]
+  by_cases h : Spec.canonArch s ∈ keysOf toOCITable
+  · obtain ⟨v, hv⟩ := lookupT_isSome h
+    obtain ⟨h1, h2⟩ := oci_table_facts.1 _ (lookupT_mem hv)
+    simp only [hv, Option.getD_some]
+    simp only at h1 h2
+    rw [if_pos h1, h2]
+  · simp only [lookupT_none h, Option.getD_none]
+    split
+    · next hk =>
+      rcases oci_table_facts.2 _ hk with h' | h'
+      · exact absurd h' h
+      · rw [h']
+    · rfl
+
 /-- every apk-style spelling ParseArchitecture knows maps to a member of AllArchs, and parsing is idempotent -/
 theorem parseArch_table_closed :
     (∀ p ∈ parseArchTable, p.2 ∈ allArchs) ∧ (∀ p ∈ parseArchTable, parseArch (parseArch p.1) = parseArch p.1) := by decide
@@ -153,7 +191,7 @@ theorem index_one_entry_per_arch (imgs : List (Text × Nat)) :
   refine ⟨⟨by simp [Impl.indexEntries], ?_⟩, imgs.mergeSort leKey, List.mergeSort_perm _ _, sortKey_sorted imgs, rfl⟩
   intro p hp
   simp only [Impl.indexEntries, List.mem_map]
-  exact ⟨p, List.mem_mergeSort.mpr hp, rfl⟩
+  exact ⟨p, List.mem_mergeSort.mpr hp, by rw [platform_spec]⟩
 
 /-- the result does not depend on the iteration order of the map -/
 theorem index_order_independent {imgs imgs' : List (Text × Nat)} (h : imgs.Perm imgs')
@@ -344,9 +382,11 @@ theorem config_mapping (shlex : Text → Option (List Text)) (ic : ImageCfg) (cr
       · next hc => rw [if_pos hc] at hcmd; exact hcmd
       · next hc => rw [if_neg hc] at hcmd; simp only [Option.some.injEq] at hcmd; exact hcmd.symm
     · have := tie_author_os
-      refine ⟨rfl, rfl, rfl, ?_, ?_, rfl, rfl, rfl⟩
+      refine ⟨rfl, rfl, rfl, ?_, ?_, rfl, ?_, ?_⟩
       · show Generated.cfgAuthor.toList = _; rw [this.1]
       · show Generated.cfgOS.toList = _; rw [this.2]
+      · show (toOCIPlatform arch).arch = _; rw [platform_spec]
+      · show (toOCIPlatform arch).variant = _; rw [platform_spec]
   · cases h
 
 /-- the build fails only when shlex rejects a string it is given -/
